@@ -34,7 +34,7 @@ CommonNames == { "$default", "utf8", "empty", "printable-question", "padded", "n
 Orgs == { "$default", "utf8" }
 NamePairs == { <<"$default", "$default">>, <<"leaf", "ca">>, <<"www.example.org", "example.org.ca">>, <<"site.leaf", "site.ca">>, <<"with space", "root ca">>,
                <<"same", "same">>, <<"Gateway", "gateway">>, <<"tls.Prod", "tls.prod">> }   \* names that differ in letter case only are distinct
-Dirs == { "existing", "missing", "nested", "rerun-longer-first" }
+Dirs == { "existing", "missing", "nested", "rerun-longer-first", "non-utf8", "unicode-spaces" }   \* any path the operating system takes is a valid --output
 Algs == { "$default", "ed25519", "ecdsa-p256", "ecdsa-p384", "rsa", "ecdsa-p521" }
 Bool == {TRUE, FALSE}
 Base == [alg |-> "$default", sans |-> <<"dns">>, country |-> "$default", cn |-> "$default", org |-> "$default", names |-> <<"$default", "$default">>,
